@@ -9,6 +9,27 @@ CHECKS = {
  "C02": dict(engine="hist", cat="model_checking", tech="explicit-state BFS over operation histories on the real DhtCoreEngine (rebuild-by-replay), reference-model oracle on every state",
    text="Every join/add/failure/eviction history up to the fix-point of an 8-id alphabet (thorough: 12 ids), every bucket-occupancy vector over {0,1,8}^5, and the full-bucket overflow sequences are executed on the real engine; after every transition every target key x count is asked through find_nodes and the FindNode/FindValue request handlers and compared with a sorted-set reference. Right level: the property quantifies over table histories and (key,count) inputs, which is exactly the enumerated space.",
    note="8-bit id space (ids differ from the local id in byte 0); LogOnly validation; reply path of DhtNetworkManager covered separately (netsim part).", ref="3/C02"),
+  "C01": dict(engine="netsim", cat="model_checking", tech="stateless deviation-bounded DFS over delivery schedules of real DhtNetworkManager instances on an in-memory socket with paused clock; configurations (all connected graphs x initiator rank x K x fault patterns x liar menu) enumerated completely",
+   text="N real DhtNetworkManagers (real DhtCoreEngine, TransportHandle, dispatcher, event handler) run in one single-threaded runtime over an in-memory wire; only the QUIC socket is replaced. Every connected connection graph on N<=4 (thorough 5) labelled nodes x every initiator distance rank x K x every silent/slow subset, a 9-entry liar menu, and full meshes up to 8 nodes are executed; on the small configurations every single (thorough: double) delivery deviation - reorder, drop, early timeout - is explored. Termination, shape, membership, closure, mesh-exactness, self, once and request-bound clauses are judged from the RPC trace. Right level: the property quantifies over topologies and fault sequences.",
+   note="configurations complete up to relabelling of non-initiators; thread preemption inside await-free segments not explored; determinism self-check replays a schedule twice.", ref="3/C01"),
+ "C13": dict(engine="hist", cat="model_checking", tech="explicit-state BFS over admit/remove/evict/set-size histories on the real IPDiversityEnforcer, DhtCoreEngine and BootstrapManager (rebuild-by-replay), counting reference model",
+   text="Address alphabets chosen so that every prefix level collides (two in one /64, /48, /32; same IPv4 twice, /24, /16) x attribute classes x 31 cap configurations; all histories to a fix-point where caps bound the state space; cap, liveness, release, atomicity and gate clauses against a counting reference. Right level: the property is an invariant over admission histories.",
+   note="below the 50k LRU bound only; integrated netsim part (10 peers of one /24 dialling a real node) is covered by the C19/C13 gate sweep through add_node.", ref="3/C13"),
+ "C15": dict(engine="inputs", cat="exploration", tech="exhaustive enumeration of witness multisets (sizes 0..5 over 50 witness types, 6..7 over 24; thorough 0..6 and 7..10) x 108 settings through the real validate_membership",
+   text="The verdict depends on the witness multiset, which is enumerated completely over the grid named in the property; BFT, 3f+1, normal-mode, monotonicity and liveness clauses on every element. Right level: the property itself is stated exhaustively over a finite grid.",
+   note="thresholds read from the config handed to the validator; exact equality with the 0.7 boundary is not judged.", ref="3/C15"),
+ "C16": dict(engine="hist", cat="model_checking", tech="explicit-state BFS to fix-point over event histories on the real EvictionManager and over add/evict/fail histories on the real DhtCoreEngine; exhaustive candidate-list enumeration through the real TrustAwarePeerSelector",
+   text="(a) eviction policy BFS to fix-point for 3 threshold configurations; (b) routing-table BFS: an evicted or failed id appears in no answer for any key until re-added; (c) all ordered candidate lists of length <=4 (thorough 5) over an id alphabet built around the f64 resolution of the score x 8 trust values incl. NaN and out-of-range x counts x configs; (d) the same through DhtCoreEngine store/retrieve. Right level: histories and inputs are the quantifiers.",
+   note="NaN trust not judged; candidate lists up to 5 (selector) / 32-peer tables (engine).", ref="3/C16"),
+ "C17": dict(engine="inputs", cat="exploration", tech="exhaustive enumeration of candidate multisets x k x weights, with the sampler's RNG seeds swept until every possible outcome of each instance was observed",
+   text="All multisets of n<=4 (thorough 5-6) node types over 12 locations x ASN x region, every k, every single metadata gap, degenerate weight grids, ReplicationFactor/ByzantineTolerance over their full small domains; for each instance fastrand seeds are swept until every reference-valid outcome was seen (outcomes observed / possible reported). Right level: inputs and sampler choices are the quantifiers; both are enumerated.",
+   note="HashSet iteration order inside the subject is not owned, so the seed->outcome map varies between processes; verdicts are universal over outcomes.", ref="3/C17"),
+ "C18": dict(engine="hist", cat="model_checking", tech="explicit-state BFS to fix-point over store/retrieve/change-password/clear-cache/reopen histories on the real EncryptedKeyStorageManager; exhaustive single-byte corruption and truncation; crash images around the rename incl. torn writes forced with RLIMIT_FSIZE",
+   text="23-operation alphabet with current/previous/never-valid passwords, merged BFS to fix-point plus unmerged histories to depth 2 (thorough 4); after every history all (id,password) pairs are probed; every byte of the store file x {8 flips, 00, FF}, every truncation; old/new/prefix images of every write reopened. Right level: histories, corruptions and crash points are the quantifiers.",
+   note="SecurityLevel::Fast; header fields that are not authenticated may change without changing the returned seed (allowed: result is Ok(original) or Err).", ref="3/C18"),
+ "C19": dict(engine="inputs", cat="exploration", tech="bounded-exhaustive input enumeration: 15^4 x 15 boundary grid, all 65536 ports, all (c,d) of /16s, IPv6 classes, all one-site mutations of valid renderings, every dictionary word at the ends of word strings, cross-component producer x consumer table",
+   text="For every address of the declared grids: four-word round trip, every separator/case variant, Display->FromStr, serde JSON/postcard cycles; every library-produced rendering handed to every directly callable consumer (FromStr, Config bootstrap addresses, DhtCoreEngine::add_node gate observed differentially). Right level: the property quantifies over inputs; the boundary neighbourhoods are finite and enumerated.",
+   note="the 2^48 space beyond the grids is not claimed; consumers private to DhtNetworkManager are exercised by the netsim checks.", ref="3/C19"),
  "C06": dict(engine="crash", cat="fault_enumeration", tech="exhaustive crash-point and torn-write enumeration over operation histories of the real PersistentStateManager, reference-model oracle, second crash/restart cycle",
    text="Every history over {upsert, delete, batch(2), checkpoint} up to the tier length (quick 4, thorough 5) is executed on the real manager under several flush/rotation/clock configurations; every instrumented step of write/rotate/checkpoint inside the last operation and every byte-prefix of every append is a crash image; each image is reopened by a fresh manager and compared with the prefix-closed reference model; from every recovered state every one-operation extension plus clean restart is run and transaction ids inspected. Right level: the property quantifies over crash points and histories.",
    note="crash model = process death (written bytes survive in order); virtual wall clock through the timestamp hook; batch = one operation.", ref="3/C06"),
